@@ -340,3 +340,71 @@ INPLACE_EXCEPTIONS = {
         'the view is a tuple of integer arrays: unhashable memo key (never cached) and fancy indexing copies; '
         'the write is additionally guarded by flags.writeable',
 }
+
+
+# ---------------------------------------------------------------------------------------
+# R-CM: exception-safe context managers
+def contextmanager_funcs(ix):
+    """All @contextmanager generator functions of the package (incl. nested ones): [(module, node, construct)]."""
+    out = []
+    for m in ix.modules.values():
+        owner = {}
+        for cn in ast.walk(m.tree):
+            if isinstance(cn, ast.ClassDef):
+                for st in cn.body:
+                    if isinstance(st, ast.FunctionDef):
+                        owner[id(st)] = cn.name
+        for node in ast.walk(m.tree):
+            if isinstance(node, ast.FunctionDef) and any(unparse(d).split('.')[-1] == 'contextmanager'
+                                                         for d in node.decorator_list):
+                cname = owner.get(id(node))
+                out.append((m, node, '%s:%s%s' % (m.name, (cname + '.') if cname else '', node.name)))
+    return out
+
+
+def _attr_store_targets(st):
+    """Attribute paths stored by a simple statement: ['self._paused', 'self._ignore[ignore_type]', ...]."""
+    tg = []
+    if isinstance(st, ast.Assign):
+        tg = list(st.targets)
+    elif isinstance(st, (ast.AugAssign, ast.AnnAssign)):
+        tg = [st.target]
+    out = []
+    for t in tg:
+        for e in (t.elts if isinstance(t, (ast.Tuple, ast.List)) else [t]):
+            if isinstance(e, (ast.Attribute, ast.Subscript)):
+                out.append(unparse(e))
+    return out
+
+
+def check_contextmanager(ctx, rule, m, node, construct):
+    """Every store before the yield that is undone after it must be undone in a finally."""
+    pm = parent_map(node)
+    yields = [n for n in walk_no_nested(node) if isinstance(n, (ast.Yield, ast.YieldFrom))]
+    if len(yields) != 1:
+        ctx.unmodelled(rule, construct, '%d yield expressions' % len(yields))
+        return
+    y = yields[0]
+    pre, post = {}, []
+    for st in walk_no_nested(node):
+        if not isinstance(st, (ast.Assign, ast.AugAssign)):
+            continue
+        for t in _attr_store_targets(st):
+            if (st.lineno, st.col_offset) < (y.lineno, y.col_offset):
+                pre.setdefault(t, []).append(st)
+            else:
+                post.append((t, st))
+    n = 0
+    for t, st in post:
+        if t not in pre:
+            continue
+        n += 1
+        tr = in_finally(pm, st)
+        ok = False
+        if tr is not None:
+            ok = any(y is x for b in tr.body for x in ast.walk(b))
+        ctx.ob(rule, construct, 'the state %s changed before the yield is restored in a finally' % t, ok,
+               detail='%s changes %s before its yield and restores it with `%s` outside any finally block: an exception '
+                      'raised inside the with-block leaves the state changed for the rest of the session' % (construct, t, norm(st)),
+               where='%s:%d' % (m.relpath, st.lineno))
+    return n
